@@ -57,7 +57,11 @@ static void blk_reqs(void) {
 		int ver, alg; const uint8_t *gs, *at, *sg; size_t gsl, atl, sgl; SM2_KEY pk; r = x509_req_get_details(req, rl, &ver, &gs, &gsl, &pk, &at, &atl, &alg, &sg, &sgl); vh_eval(vh_mix(sid * 10 + nm + 101));
 		if (r != 1 || ver != X509_version_v1 || gsl != sl || memcmp(gs, subj, sl) || sm2_public_key_equ(&pk, &CK[0]) != 1 || alg != OID_sm2sign_with_sm3) vh_viol("C15:req:field-differs", "\"req\":\"%s\"", vh_hex(req, rl));
 		for (int i = 0; i < 4; i++) { char *vb = (char *)malloc(IDS[i].n); memcpy(vb, IDS[i].p, IDS[i].n); r = x509_req_verify(req, rl, vb, IDS[i].n); free(vb); vh_eval(vh_mix(sid * 100 + nm * 10 + i + 201)); if ((r == 1) != (i == sid)) { char key[128]; snprintf(key, sizeof key, "C15:req:verify-id-matrix:%s:id=%d-signed-under-%d", r == 1 ? "accepted" : "rejected", i, sid); vh_viol(key, "\"x\":1"); } }
-		verify_matrix("req", req, rl, &CK[0], sid); if (sid < 2 && nm == 0) bitflips("req", req, rl, &CK[0], sid, 1); free(idb); }
+		verify_matrix("req", req, rl, &CK[0], sid); if (sid < 2 && nm == 0) bitflips("req", req, rl, &CK[0], sid, 1); free(idb); 
+		/* a request whose subject key is NOT the signing key (the API takes the two separately): it must carry the subject key as given, and -
+		   being signed by somebody else - must not verify as a proof of possession */
+		{ static uint8_t rq2[1024]; uint8_t *p2 = rq2; size_t r2l = 0; venv_reset(77 + sid); char *id2 = (char *)malloc(IDS[sid].n); memcpy(id2, IDS[sid].p, IDS[sid].n); int r2 = x509_req_sign_to_der(X509_version_v1, subj, sl, &CK[1], (const uint8_t *)"", 0, OID_sm2sign_with_sm3, &CK[0], id2, IDS[sid].n, &p2, &r2l); vh_eval(vh_mix(sid * 10 + nm + 301));
+			if (r2 == 1) { SM2_KEY pk2; r2 = x509_req_get_details(rq2, r2l, &ver, &gs, &gsl, &pk2, &at, &atl, &alg, &sg, &sgl); if (r2 != 1 || sm2_public_key_equ(&pk2, &CK[1]) != 1) vh_viol("C15:req:subject-key-not-the-one-supplied", "\"req\":\"%s\"", vh_hex(rq2, r2l)); if (x509_req_verify(rq2, r2l, id2, IDS[sid].n) == 1) vh_viol("C15:req:verifies-although-signed-by-another-key", "\"sid\":%d", sid); } else vh_obs("x509_req_sign_to_der refuses a subject key different from the signing key"); free(id2); } }
 }
 static void blk_crls(void) {
 	if (!vh_block_begin("crls")) return;
